@@ -535,6 +535,12 @@ fn adv_set(op: &Value) -> BTreeSet<usize> {
 
 /// Plays the remote script on `rs`, the remote end of the victim's session (label `sid`).
 #[allow(clippy::too_many_arguments)]
+thread_local! {
+    /// set by `node_conn` for an outbound attempt towards a peer that is not connected yet: (node, consensus?, key index).
+    /// While the remote end has the node's handshake frame in hand and has not answered, the peer must not be registered.
+    static OUT_PROBE: std::cell::RefCell<Option<(Arc<hk::Node>, bool, usize)>> = const { std::cell::RefCell::new(None) };
+}
+
 async fn play_remote(
     w: &'static World,
     ctx: &'static ctx::Ctx,
@@ -568,6 +574,22 @@ async fn play_remote(
                 from_victim = recv_frame(&mut rs).await;
                 if let Some(f) = &from_victim {
                     pl.sent.as_mut().unwrap().push(f.clone());
+                }
+                // the node has dialled, sent its frame and is waiting for the answer: nothing is authenticated yet, so the
+                // dialled identity must not appear in the outbound pool (debug page, metrics, wait_for_connections read it)
+                if let Some((node, consensus, key)) = OUT_PROBE.with(|p| p.borrow().clone()) {
+                    tokio::time::sleep(Duration::from_millis(20)).await;
+                    let present = if consensus {
+                        node.consensus_outbound().iter().any(|(k, _)| *k == w.vkeys[key].public())
+                    } else {
+                        node.gossip_outbound().iter().any(|(k, _)| *k == w.nkeys[key].public())
+                    };
+                    if present {
+                        fails.push((
+                            format!("node/registered-before-authentication/{}/outbound", if consensus { "consensus" } else { "gossip" }),
+                            format!("validator / node {key} is listed in the outbound pool while the remote end has not answered the handshake yet"),
+                        ));
+                    }
                 }
             }
             let frame: Option<Vec<u8>> = match kind.as_str() {
@@ -1486,6 +1508,16 @@ impl C12 {
                 let (main, public, aux) = (&mut self.main, &mut self.public, &mut self.aux);
                 let busy: HashSet<SocketAddr> = ns.live.values().map(|c| c.addr).collect();
                 let mut fails: Vec<(String, String)> = vec![];
+                {
+                    let consensus = matches!(net, Net::Consensus);
+                    let already = if consensus {
+                        node.consensus_outbound().iter().any(|(k, _)| *k == w.vkeys[peer.min(w.vkeys.len() - 1)].public())
+                    } else {
+                        node.gossip_outbound().iter().any(|(k, _)| *k == w.nkeys[peer.min(w.nkeys.len() - 1)].public())
+                    };
+                    let probe = (dir == Dir::Out && !already && peer < w.vkeys.len().min(w.nkeys.len())).then(|| (node.clone(), consensus, peer));
+                    OUT_PROBE.with(|p| *p.borrow_mut() = probe);
+                }
                 let res = self.rt.block_on(async {
                     tokio::time::timeout(OP_TIMEOUT, async {
                         // establish the session: the node holds one end (as a task running the real admission path)
